@@ -352,7 +352,8 @@ def standin_roundtrip(tier, seed):
     store.record_measurement(cirq.MeasurementKey("m"), [0, 1], q_[:2])
     store.record_measurement(cirq.MeasurementKey("m"), [1, 1], q_[:2])
     store.record_channel_measurement(cirq.MeasurementKey("c"), 2)
-    used = [store, cirq.CZTargetGateset(preserve_moment_structure=False, reorder_operations=True), cirq.CZTargetGateset(preserve_moment_structure=False, allow_partial_czs=True), cirq.Duration(millis=2 ** 53 + 1), cirq.Duration(micros=2 ** 55 + 1), cirq.Duration(picos=2 ** 62 + 3)]  # (kept below the range of datetime.timedelta, which Duration hashes through)
+    loose = np.array([[1, 1e-4], [0, 1]], dtype=complex)
+    used = [cirq.MatrixGate(loose, unitary_check_atol=1e-3), cirq.MatrixGate(np.array([[1, 0], [0, 1.001]]), unitary_check=False), store, cirq.CZTargetGateset(preserve_moment_structure=False, reorder_operations=True), cirq.CZTargetGateset(preserve_moment_structure=False, allow_partial_czs=True), cirq.Duration(millis=2 ** 53 + 1), cirq.Duration(micros=2 ** 55 + 1), cirq.Duration(picos=2 ** 62 + 3)]  # (kept below the range of datetime.timedelta, which Duration hashes through)
     try:
         import cirq_google
         used += [cirq_google.study.Metadata(unit="ns"), cirq_google.study.Metadata(label="l", is_const=True, unit="GHz"), cirq_google.InternalGate("G", None, 1), cirq_google.InternalGate("G", "mod", 2, x=0.5)]
